@@ -83,7 +83,7 @@ def helpers(ctx, pid):
             rets.add((tuple(conds), st.ret))
     en = ("call", "ext:enumerate", (("call", "ext:zip", (l, r), ()),), ())
     it = ("iter", en, 0)
-    pair = ("sub", it, C(1))
+    pair = eng.mk_sub(it, C(1))
     want = {
         ((("!=", ("sub", pair, C(0)), ("sub", pair, C(1))),), ("sub", it, C(0))),
         ((), ("call", "ext:min", (("len", l), ("len", r)), ())),
